@@ -94,7 +94,7 @@ def fev_of(F):
 
     if 'l' not in _LATS:
         _LATS['l'] = Lattice.from_parameters(4, 5, 6, 85, 95, 100)
-    return FreeEnergyVolume(data=np.asarray(F, dtype=float), lattice=_LATS['l'])
+    return FreeEnergyVolume(data=np.asarray(F, dtype=float), lattice=_LATS['l'])  # np.asarray keeps the memory layout
 
 
 def validate_path(path, E, shape, offs, start, stop, tag):
@@ -125,6 +125,8 @@ def check_wrapped(path, shape, sites, tag):
         fr = np.asarray(path.frac_sites(), dtype=float)
     except Exception as e:  # noqa: BLE001
         return [(f'{tag}wrapped-sites-raise-{type(e).__name__}', str(e))]
+    if [tuple(int(x) for x in s) for s in path.sites] != list(sites):
+        viols.append((f'{tag}wrapped-or-fractional-accessor-modifies-the-path', f'sites now {list(path.sites)[:4]}... were {list(sites)[:4]}...'))
     for s, ws in zip(sites, w):
         if any(not (0 <= c < d) for c, d in zip(ws, shape)) or any((a - b) % d for a, b, d in zip(s, ws, shape)):
             viols.append((f'{tag}wrapped-site-outside-grid-or-not-congruent', f'site={s} wrapped={ws} dims={shape}'))
@@ -316,7 +318,9 @@ def run_shard(shard) -> Result:
             F = np.array(pre + list(rest)).reshape(shape)
             if not np.any(F < THR):
                 continue
-            fev = fev_of(F)  # ONE volume object serves both neighbourhood modes (order alternates)
+            # memory layout of the grid: C order, Fortran order, or a transposed view (same values)
+            Fl = F if gi % 3 == 0 else (np.asfortranarray(F) if gi % 3 == 1 else np.ascontiguousarray(F.transpose(2, 1, 0)).transpose(2, 1, 0))
+            fev = fev_of(Fl)  # ONE volume object serves both neighbourhood modes (order alternates)
             for diagonal in ((True, False) if gi % 2 == 0 else (False, True)):
                 eval_grid(F, diagonal, res, fev=fev)
         res.sample({'grid_shape': shape, 'energies': F.tolist(), 'pairs': 'all admissible ordered pairs', 'methods': METHODS})
